@@ -106,6 +106,9 @@ func (v *VerifSession) ConnectAsync(in <-chan VerifFixIn, out chan<- []byte) err
 }
 func (v *VerifSession) StopAsync() { v.s.stop() }
 
+// InjectSessionEvent posts a timer event to the run loop exactly as a fired timer does.
+func (v *VerifSession) InjectSessionEvent(e int) { v.s.sessionEvent <- internal.Event(e) }
+
 // TakeMessageEvent consumes the flush token if present.
 func (v *VerifSession) TakeMessageEvent() bool {
 	select {
